@@ -566,8 +566,8 @@ impl Space for Histories {
 pub fn spaces(tier: Tier, _seed: u64) -> Vec<Box<dyn Space>> {
     let mut v: Vec<Box<dyn Space>> = Vec::new();
     let (l0, lk, l2) = match tier {
-        Tier::Quick => (6, 4, 5),
-        Tier::Thorough => (8, 5, 6),
+        Tier::Quick => (7, 4, 5),
+        Tier::Thorough => (9, 5, 7),
     };
     v.push(Box::new(Histories { alpha: ALPHA1, alpha_name: "A1", max_len: l0, start: 0 }));
     for k in 1..NUM_STARTS {
